@@ -169,10 +169,21 @@ def add_late(sc, rng):
             for r in names[:i]:
                 if r not in k.get("req", []) and rng.random() < 0.15:
                     removed.append([k["name"], r])
-    if not edges and not removed:
+    # jobs that are members while the graph is inspected, spliced into a requirement edge (c requires r requires a where
+    # the final graph has c requires a), and taken out again with bypass_and_remove() before the run - no sanitize()
+    dropped = []
+    for n, _ in walk(sc["tree"]):
+        if n["kind"] != "sched":
+            continue
+        for k in n.get("children") or []:
+            for r in k.get("req", []):
+                if [k["name"], r] not in edges and rng.random() < 0.2 and len(dropped) < 2:
+                    dropped.append(dict(name="gone%d" % len(dropped), sched=n["name"], after=r, before=k["name"],
+                                        how=rng.choice(["bypass", "bypass", "remove"])))
+    if not edges and not removed and not dropped:
         return None
     ops = ["exit_jobs", "list", "dot", "check", "succ", "pred"]
-    sc["late"] = dict(edges=edges, removed=removed, inspect=rng.sample(ops, rng.randint(1, 3)))
+    sc["late"] = dict(edges=edges, removed=removed, dropped=dropped, inspect=rng.sample(ops, rng.randint(1, 3)))
     return sc
 
 
